@@ -160,7 +160,7 @@ def run(chk):
     # ---- (A) exact-model cases: durations in seconds
     corpus = json.load(open(os.path.join(common.VERIF, "corpus", "c19.json")))
     exact = [(c["t"], float(c["d"])) for c in corpus]
-    for _ in range(500 if quick else 8000):
+    for _ in range(500 if quick else 4000):
         exact.append((rand_instant(rng), rand_seconds(rng)))
     lines = []
     for t, d in exact:
@@ -171,7 +171,7 @@ def run(chk):
                   "(%s + %s) - %s" % (instant_src(t), ds, instant_src(t))]
     # ---- (B) oracle cases: every time unit, both signs
     unit_cases = []
-    for _ in range(400 if quick else 6000):
+    for _ in range(400 if quick else 3000):
         u, size = rng.choice(TIME_UNITS)
         t = rng.randrange(-6 * 10 ** 10, 10 ** 11)
         x = rng.choice([-1, 1]) * rng.choice([rng.uniform(0, 10), rng.uniform(0, 1e4), float(rng.randrange(0, 1000)),
@@ -185,7 +185,7 @@ def run(chk):
                    "%s -> s" % ds]
     # ---- (C) zones, parse/format, non-finite durations
     zone_cases = []
-    for _ in range(150 if quick else 3000):
+    for _ in range(150 if quick else 1500):
         # instants over the whole supported range (years -9999 .. 9999; a day of margin so that the zone offset cannot
         # push the civil time out of range), half of them within a few centuries of today
         tt = rng.randrange(TS_MIN_S + 2 * 86400, TS_MAX_S - 2 * 86400) if rng.random() < 0.5 else rng.randrange(-6 * 10 ** 9, 9 * 10 ** 9)
@@ -203,7 +203,7 @@ def run(chk):
                    "(((%s -> tz(\"%s\")) + %s) - (%s -> tz(\"%s\"))) - ((%s + %s) - %s)" % (inst, z, dd, inst, z2, inst, dd, inst)]
     nflines = ["%s %s (%s s)" % (instant_src(0), op, v) for op in "+-" for v in ("sqrt(-1)", "(1e308 × 10)", "(-1e308 × 10)")]
     all_lines = lines + ulines + zlines + nflines
-    outs = common.run_harness(binary, "eval", all_lines)
+    outs = common.run_harness(binary, "eval", all_lines, timeout=3000)
     o_exact = outs[:len(lines)]
     o_unit = outs[len(lines):len(lines) + len(ulines)]
     o_zone = outs[len(lines) + len(ulines):len(lines) + len(ulines) + len(zlines)]
@@ -212,9 +212,9 @@ def run(chk):
     # the same exact cases in sessions whose LOCAL time zone is not UTC (from_unixtime_s gives a date-time in the local
     # zone): instants, durations and error kinds must not depend on it
     local_zone_runs = {}
-    zone_pass_lines = 450 if quick else len(lines)          # quick: the corpus and the first ~150 cases
+    zone_pass_lines = 450 if quick else 6000          # quick: the corpus and the first ~150 cases
     for z in (["Pacific/Chatham"] if quick else ["Pacific/Chatham", "America/St_Johns", "Asia/Kathmandu"]):
-        local_zone_runs[z] = common.run_harness(binary, "eval", lines[:zone_pass_lines], extra_args=("--tz", z))
+        local_zone_runs[z] = common.run_harness(binary, "eval", lines[:zone_pass_lines], extra_args=("--tz", z), timeout=3000)
 
     fails = []          # property violations on the implementation (with input)
 
@@ -259,7 +259,7 @@ def run(chk):
             mm, ee = math.frexp(abs(d))
             items.append(("show_case_f64 (%d)%%Z %s %d%%positive (%d)%%Z" % (
                 t * 10 ** 9, "true" if d < 0 else "false", int(mm * 2 ** 53), ee - 53), "@"))
-    model = common.coq_mismatches(["Time.Model", "Time.Exec"], items, "c19", shard_size=200,
+    model = common.coq_mismatches(["Time.Model", "Time.Exec"], items, "c19", shard_size=200, timeout=3000,
                                   prelude="From Coq Require Import QArith ZArith.") if proved else {}
     mismatches = []
     if proved:
